@@ -45,6 +45,18 @@ static int parse_cps(const char *s, wchar_t *out, int max) { int n = 0; if (*s =
 static void show(const char *tag, const wchar_t *w, int n) { printf("  %s:", tag); for (int i = 0; i < n; i++) printf(" %04X", (unsigned)w[i]); printf("\n"); }
 static const char *blk(uint32_t c) { static char b[24]; if (c >= 0xAC00 && c <= 0xD7A3) return "hangul-syllable"; if (c >= 0x1100 && c <= 0x11FF) return "jamo"; snprintf(b, sizeof b, "U+%04Xxx", c >> 8); return b; }
 
+/* the C library's own allocations can fail too (its qsort sorts through a scratch array it mallocs when the array is larger than 1 KiB, and falls back to
+ * an unstable in-place sort when that fails).  malloc is defined here so that, on demand, requests coming from inside libc are refused; the library's own
+ * requests and the harness's are always served. */
+#include <link.h>
+extern void *__libc_malloc(size_t); extern void __libc_free(void *); extern void *__libc_realloc(void *, size_t); extern void *__libc_calloc(size_t, size_t);
+static uintptr_t libc_lo, libc_hi; static volatile int fail_libc_malloc; static long refused;
+static int find_libc(struct dl_phdr_info *info, size_t sz, void *d) { (void)sz; (void)d;
+    if (info->dlpi_name && strstr(info->dlpi_name, "libc.so")) for (int i = 0; i < info->dlpi_phnum; i++) { const ElfW(Phdr) *ph = &info->dlpi_phdr[i];
+        if (ph->p_type == PT_LOAD && (ph->p_flags & PF_X)) { libc_lo = info->dlpi_addr + ph->p_vaddr; libc_hi = libc_lo + ph->p_memsz; } }
+    return 0; }
+void *malloc(size_t n) { if (fail_libc_malloc) { uintptr_t ra = (uintptr_t)__builtin_return_address(0); if (ra >= libc_lo && ra < libc_hi) { refused++; return NULL; } } return __libc_malloc(n); }
+
 #define CAN 0x5a5a5a5a
 static wchar_t dbuf[4400];
 
@@ -178,6 +190,24 @@ int main(int argc, char **argv) {
             if (ol != ne || memcmp(o, exp, ne * sizeof(wchar_t))) { report("wcsfc_s", "differs-from-NFD-of-full-case-folding", cls, cs); continue; }
             if ((int)len != ol) report("wcsfc_s", "wrong-length-reported", cls, cs);
         }
+    } else if (!strcmp(cmd, "sortstab")) {
+        /* long runs of combining marks, many of them of the same class and distinct: the result must be the same whether or not the C library gets the
+           memory it asks for internally while the library reorders the marks */
+        dl_iterate_phdr(find_libc, NULL);
+        static const int NS_[] = { 130, 200, 300, 600 };
+        for (int ni = 0; ni < 4; ni++) for (int pat = 0; pat < 3; pat++) { if (replay && argc > 3 && (atoi(argv[2]) != ni || atoi(argv[3]) != pat)) continue;
+            static wchar_t src[700], o1[2100], o2[2100]; int n = NS_[ni]; src[0] = 'a';
+            for (int i = 1; i <= n; i++) src[i] = pat == 0 ? 0x0300 + (i * 7) % 0x15 : pat == 1 ? (i % 3 == 0 ? 0x0316 + (i * 5) % 4 : 0x0300 + (i * 11) % 0x15) : 0x0300 + (i % 2 ? (i * 3) % 5 : 0x10 + (i * 3) % 5);      /* U+0300..0314: class 230, U+0316..0319: class 220 */
+            src[n + 1] = 0; char cs[64], cls[48]; snprintf(cs, sizeof cs, "sortstab %d %d", ni, pat); snprintf(cls, sizeof cls, "marks=%d,%s", n, pat == 1 ? "two-classes" : "one-class");
+            for (int mode = 0; mode < 2; mode++) { size_t l1 = 0, l2 = 0; int c1, c2, k1, k2; size_t dmax = (size_t)n + 8;
+                int r1 = norm_call(src, mode, dmax, o1, &l1, &c1, &k1);
+                refused = 0; fail_libc_malloc = 1; int r2 = norm_call(src, mode, dmax, o2, &l2, &c2, &k2); fail_libc_malloc = 0;
+                if (verbose) printf("mode=%s marks=%d: rc=%d len=%zu; with libc-internal allocations refused (%ld refused): rc=%d len=%zu\n", mode ? "NFC" : "NFD", n, r1, l1, refused, r2, l2);
+                if (c1 || c2) { report(mode ? "wcsnorm_s:NFC" : "wcsnorm_s:NFD", "fault", cls, cs); continue; }
+                if (r1 != 0) { report(mode ? "wcsnorm_s:NFC" : "wcsnorm_s:NFD", "fails-on-valid-input", cls, cs); continue; }
+                if (r2 != 0) continue;                               /* reported an allocation failure of its own: fine */
+                if (l1 != l2 || memcmp(o1, o2, (l1 + 1) * sizeof(wchar_t))) report(mode ? "wcsnorm_s:NFC" : "wcsnorm_s:NFD", "result-depends-on-memory-available-to-the-C-library", cls, cs);
+            } }
     } else if (!strcmp(cmd, "range")) {
         static const uint32_t BAD[] = { 0x110000, 0x110001, 0x1FFFFF, 0x200000, 0x7FFFFFFF, 0x80000000u, 0xFFFFFFFFu, 0xFFFF0041u }, SUR[] = { 0xD800, 0xDBFF, 0xDC00, 0xDFFF };
         for (int k = 0; k < 12; k++) { uint32_t c = k < 8 ? BAD[k] : SUR[k - 8]; int above = k < 8; char cs[64], cls[40]; snprintf(cs, sizeof cs, "range %d", k); snprintf(cls, sizeof cls, "%s", above ? "above-10FFFF" : "surrogate");
